@@ -3,6 +3,7 @@ import Driver.UpdCmd
 import Driver.LexCmd
 import Driver.LoaderCmd
 import Driver.ParseCmd
+import Driver.RunCmd
 /-!
 # Line-protocol driver over the executable models
 
@@ -21,6 +22,7 @@ def step (s : DState) (line : String) : DState × String :=
   | ["lex", h] => (s, lexLine h)
   | ["loader", h] => (s, loaderLine h)
   | ["parse", h] => (s, parseLine h)
+  | ["run", h, e, d] => (s, runLine h e d)
   | _ => (s, "bad-op")
 
 partial def loop (h : IO.FS.Stream) (out : IO.FS.Stream) (s : DState) : IO Unit := do
